@@ -51,7 +51,7 @@ def small_dicts():
 
 
 def load_configs(rng: random.Random, quick: bool) -> list[dict]:
-    names = ["a.json", "B.json", "a10.json", "a2.json"]
+    names = ["a.json", "B.json", "a10.json", "a2.json", "a-b.json"]
     ddocs = [{"a": 1}, {"a": 2}, {"b": 1}, {"a": {"x": 1}}, {"a": {"x": 2}}, {"a": {"y": 1}}, {}]
     ldocs = [[], [1], [2, 1]]
     cfgs = []
@@ -85,6 +85,13 @@ def load_configs(rng: random.Random, quick: bool) -> list[dict]:
             {"DE": {"positions": {"bank_code": [0, 4], "branch_code": [4, 8]}}},
             {"DE": {"positions": 5}}, {"DE": None, "É": {"k": [1, {"z": None}]}}, {"DE": {"positions": {}}},
             {"FR": {"a": {"b": {"c": {"d": 1}}}}}, {"FR": {"a": {"b": {"c": {"e": 2}, "f": True}}}}]
+    # names whose order differs between "by name" and "by stem" / natural / case-folded orders
+    tricky = ["overwrite.json", "overwrite-local.json", "overwrite local.json", "overwrite+x.json", "Overwrite.json",
+              "overwrite.v2.json", "overwrite_2.json", "overwrite10.json", "overwrite2.json", "ÿ.json"]
+    for a, b in itertools.permutations(tricky, 2):
+        cfgs.append({"kind": "dict", "files": [(a, {"k": {"v": 1, "a": a}}), (b, {"k": {"v": 2, "b": b}})]})
+        if not a.endswith("v2.json") and not b.endswith("v2.json"):
+            cfgs.append({"kind": "list", "files": [(a, [a]), (b, [b])]})
     for n in (2, 3):
         for ds in itertools.permutations(deep, n):
             cfgs.append({"kind": "dict", "files": list(zip(["generated.json", "overwrite.json", "zz.json"][:n], ds))})
